@@ -680,8 +680,13 @@ class Ev(object):
             return tm.TRUE
         if k == "bind":
             mode = pat["mode"]
-            by_ref = "Ref" in mode.split("(")[1].split(",")[0] if "(" in mode else False
-            mut_ref = by_ref and "Mut" in mode.split(",")[0]
+            # BindingMode(No|Yes(pin, mutbl), mutbl)   (older: BindingMode(Ref(Mut), ..))
+            inner = mode[len("BindingMode("):] if mode.startswith("BindingMode(") else mode
+            by_ref = inner.startswith("Yes(") or inner.startswith("Ref(")
+            mut_ref = False
+            if by_ref:
+                head = inner[: inner.index(")") + 1]
+                mut_ref = "Mut" in head
             if by_ref and mut_ref and place is not None:
                 val = place.ref()
             else:
